@@ -5,6 +5,7 @@
 -/
 import Nice.Model.Consent
 import Nice.Props.C13Send
+import Nice.Props.C13RemoveStream
 namespace Nice.Props.C13
 open Nice.Consent Nice.Gen
 
